@@ -1,6 +1,7 @@
 package main
 
 import (
+	"encoding/json"
 	"flag"
 	"fmt"
 	"os"
@@ -21,6 +22,60 @@ func main() {
 		cmdCheck(os.Args[2:])
 	case "list":
 		cmdList(os.Args[2:])
+	case "replay":
+		cmdReplay(os.Args[2:])
+	case "cfbworker":
+		fs := flag.NewFlagSet("cfbworker", flag.ExitOnError)
+		repo := fs.String("repo", "/repo", "repository")
+		tier := fs.String("tier", "quick", "tier")
+		shard := fs.Int("shard", 0, "shard")
+		of := fs.Int("of", 1, "number of shards")
+		fs.Parse(os.Args[2:])
+		env, err := loadEnv(*repo)
+		if err != nil {
+			fmt.Fprintln(os.Stderr, err)
+			os.Exit(2)
+		}
+		cfg := &SolverCfg{QuickMs: 2000, FullMs: 4000, CacheDir: "", Workers: 2}
+		res := runCFBShard(env, *tier, *shard, *of, cfg)
+		b, _ := json.Marshal(res)
+		fmt.Println(string(b))
+	case "cfb":
+		env, err := loadEnv("/repo")
+		if err != nil {
+			fmt.Fprintln(os.Stderr, err)
+			os.Exit(2)
+		}
+		t0 := time.Now()
+		var cs []cfbCase
+		for _, a := range os.Args[2:] {
+			var c cfbCase
+			var ip int
+			fmt.Sscanf(a, "%[^:]:%d:%d:%d", &c.fn, &c.bs, &c.n, &ip)
+			_ = ip
+			cs = append(cs, c)
+		}
+		for _, spec := range os.Args[2:] {
+			var fn string
+			var bs, n, ip int
+			parts := strings.Split(spec, ":")
+			fn = parts[0]
+			fmt.Sscan(parts[1], &bs)
+			fmt.Sscan(parts[2], &n)
+			fmt.Sscan(parts[3], &ip)
+			c := cfbCase{fn, bs, n, ip == 1}
+			u := verifyUnit(env, c.fn, env.funcs[c.fn], UnitOpts{Inst: cfbInstance(env, c)})
+			triv, non := 0, 0
+			for _, o := range u.Obligs {
+				if o.Trivial {
+					triv++
+				} else {
+					non++
+					fmt.Println("  nontrivial:", o.Name, truncate(o.Goal.String(), 200))
+				}
+			}
+			fmt.Printf("%s: %d trivial, %d non-trivial, unsupported=%v, %v\n", u.Key, triv, non, u.Unsupported, time.Since(t0))
+		}
 	default:
 		fmt.Fprintln(os.Stderr, "unknown command", os.Args[1])
 		os.Exit(2)
